@@ -162,14 +162,21 @@ HInit(T, e) ==
    instructed |-> {},          \* vehicles an instruction was attempted for in this step
    final    |-> <<>>,
    arrived  |-> [v \in DOMAIN T.veh |-> 0],
+   disp0    |-> [k \in {"electric", "gasoline"} |->
+                   SumOver(T.st, {s \in DOMAIN T.st : k \in DOMAIN T.st[s].disp}, LAMBDA s : T.st[s].disp[k])],
+   fares    |-> 0,             \* sum of the values of the requests picked up so far
+   nev      |-> 0,             \* number of ledger events (pickups and charge steps): bounds the rounding error
+   sched    |-> IF "sched" \in DOMAIN e THEN [k \in DOMAIN PairsToFn(e.sched) |-> PairsToFn(e.sched)[k]] ELSE <<>>,
+   gens     |-> <<>>,          \* what each instruction generator emitted in this step, in generation order
    steps    |-> 0]
 
 Reports(e, type) == {e.rep[i] : i \in {i \in DOMAIN e.rep : e.rep[i].type = type}}
 
-\* requests picked up in this update: they left `req` and the vehicle now carries them
+\* requests picked up in this update: they left `req` in the update of the vehicle that was dispatched to them
+\* (the only way a vehicle update removes a request; the vehicle may run out of energy in the same update)
 PickedNow(B, T, e) ==
-  IF e.ev = "update" /\ e.v \in DOMAIN T.veh
-  THEN {r \in DOMAIN B.req \ DOMAIN T.req : T.veh[e.v].ob = r /\ B.veh[e.v].ob # r} ELSE {}
+  IF e.ev = "update" /\ e.v \in DOMAIN B.veh
+  THEN {r \in DOMAIN B.req \ DOMAIN T.req : B.veh[e.v].act = "DispatchTrip" /\ B.veh[e.v].tgt = r} ELSE {}
 
 DroppedNow(e) == IF e.ev = "update" THEN {x.request_id : x \in Reports(e, "dropoff_request_event")} ELSE {}
 
@@ -185,8 +192,8 @@ HNext(Hh, B, T, e) ==
      !.dropped = @ \cup DroppedNow(e),
      !.cancelled = @ \cup (IF e.ev = "pre" /\ e.fn = "CancelRequests" THEN gone ELSE {}),
      !.stranded = @ \cup (IF e.ev = "update" /\ e.v \in DOMAIN B.veh /\ e.v \in DOMAIN T.veh
-                             /\ B.veh[e.v].ob # None /\ T.veh[e.v].act = "OutOfService"
-                          THEN {B.veh[e.v].ob} ELSE {}),
+                             /\ T.veh[e.v].act = "OutOfService"
+                          THEN ({B.veh[e.v].ob} \ {None}) \cup pk ELSE {}),
      !.instructed = IF e.ev = "begin" THEN {} ELSE IF e.ev = "instr" THEN @ \cup {e.v} ELSE @,
      !.final = IF e.ev = "stacks" THEN e.final ELSE @,
      !.arrived = IF e.ev = "update" /\ e.v \in DOMAIN B.veh /\ e.v \in DOMAIN T.veh
@@ -195,6 +202,11 @@ HNext(Hh, B, T, e) ==
                            /\ T.veh[e.v].tgt = B.veh[e.v].tgt
                         THEN @ + 1 ELSE 0]
                  ELSE @,
+     !.fares = @ + SumOver(Hh.value, pk, LAMBDA r : Hh.value[r]),
+     !.nev = IF e.ev = "update" /\ e.v \in DOMAIN B.veh /\ e.v \in DOMAIN T.veh
+                /\ (pk # {} \/ B.veh[e.v].gained # T.veh[e.v].gained \/ B.veh[e.v].bal # T.veh[e.v].bal)
+             THEN @ + 1 ELSE @,
+     !.gens = IF e.ev = "begin" THEN <<>> ELSE IF e.ev = "gen" THEN Append(@, [name |-> e.name, instrs |-> e.instrs]) ELSE @,
      !.steps = IF e.ev = "end" THEN @ + 1 ELSE @]
 
 -----------------------------------------------------------------------------
@@ -252,16 +264,73 @@ C03_Conservation(Hh, T) ==
       r \notin Hh.dropped /\ r \notin Hh.stranded
       /\ ~(Hh.picked[r] \in DOMAIN T.veh /\ T.veh[Hh.picked[r]].act = "ServicingTrip" /\ T.veh[Hh.picked[r]].ob = r)}}
 
+(* C09 - instruction stacks: generators in configured order, the driver last, the top of the stack is attempted *)
+Rev(sq) == [i \in 1..Len(sq) |-> sq[Len(sq) + 1 - i]]
+SelectSeq2(sq, Test(_)) == SelectSeq(sq, Test)
+GenFor(Hh, v) ==   \* everything the generators emitted for v, in generation order
+  LET RECURSIVE Cat(_)
+      Cat(i) == IF i = 0 THEN <<>> ELSE Cat(i - 1) \o SelectSeq(Hh.gens[i].instrs, LAMBDA x : x.v = v)
+  IN Cat(Len(Hh.gens))
+
+C09_Stacks(Hh, e) ==
+  LET stacks == PairsToFn(e.stacks)
+      logged == [i \in DOMAIN Hh.gens |-> Hh.gens[i].name] = e.gens     \* every generator of this run reports its emission
+      fin == {e.final[i] : i \in DOMAIN e.final}
+  IN
+     \* the instruction attempted for a vehicle is the top of its stack; nothing else is attempted
+     {V("C09", "final_is_top_of_stack", "vehicle", v) : v \in {v \in DOMAIN stacks :
+         stacks[v] # <<>> /\ ~(stacks[v][1] \in fin /\ Cardinality({x \in fin : x.v = v}) = 1)}}
+  \cup {V("C09", "final_is_top_of_stack", "no_stack", x.v) : x \in {x \in fin : x.v \notin DOMAIN stacks \/ stacks[x.v] = <<>>}}
+  \cup (IF Len(e.final) # Cardinality(fin) THEN {V("C09", "one_instruction_per_vehicle", "final", "final")} ELSE {})
+     \* last generated wins: the stack holds the generators' instructions in reverse generation order, with at most
+     \* one more instruction (the driver's) on top
+  \cup (IF ~logged THEN {} ELSE
+        {V("C09", "stack_is_generation_order", "vehicle", v) : v \in {v \in DOMAIN stacks :
+           LET G == GenFor(Hh, v)  st == stacks[v] IN
+           ~(/\ Len(st) \in {Len(G), Len(G) + 1}
+             /\ SubSeq(st, Len(st) - Len(G) + 1, Len(st)) = Rev(G))}}
+        \cup {V("C09", "stack_is_generation_order", "missing", v) : v \in {v \in {x.v : x \in UNION {SeqToSet(Hh.gens[i].instrs) : i \in DOMAIN Hh.gens}} :
+           v \notin DOMAIN stacks}})
+
+\* the built-in generators pair vehicles only with requests / stations of their own fleets (or public ones)
+C10_Builtin(St, name, instrs) ==
+  IF name \notin {"Dispatcher", "ChargingFleetManager"} THEN {} ELSE
+  {V("C10", "builtin_pairs_within_fleet", name \o (IF instrs[i].v \in DOMAIN St.veh /\ St.veh[instrs[i].v].fleets = {} THEN "/fleetless_vehicle" ELSE ""), instrs[i].v) :
+     i \in {i \in DOMAIN instrs :
+        LET x == instrs[i] IN
+        /\ x.v \in DOMAIN St.veh
+        /\ \/ x.kind = "DispatchTrip" /\ x.tgt \in DOMAIN St.req /\ ~Access(St.req[x.tgt].fleets, St.veh[x.v].fleets)
+           \/ x.kind = "DispatchStation" /\ x.tgt \in DOMAIN St.st /\ ~Access(St.st[x.tgt].fleets, St.veh[x.v].fleets)}}
+
 MonStep(Hh, B, T, e) ==
+  LET upd == e.ev = "update" /\ e.v \in DOMAIN B.veh /\ e.v \in DOMAIN T.veh
+      Hn  == HNext(Hh, B, T, e)
+  IN
      (IF Has("C03") THEN C03_Step(Hh, B, T, e) ELSE {})
   \cup (IF Has("C09") /\ e.ev = "instr" /\ e.v \in DOMAIN B.veh
         THEN C09_Rejected(B, T, e.v, e.out) \cup (IF e.out = "invalid" THEN {} ELSE C09_Applied(B, T, e.v, e.nx, e.out))
              \cup (IF e.v \in Hh.instructed THEN {V("C09", "one_instruction_per_vehicle", "vehicle", e.v)} ELSE {})
+             \cup (IF e.i \notin SeqToSet(Hh.final) THEN {V("C09", "attempted_is_final", "vehicle", e.v)} ELSE {})
         ELSE {})
+  \cup (IF Has("C09") /\ e.ev = "stacks" THEN C09_Stacks(Hh, e) ELSE {})
   \cup (IF Has("C10") /\ e.ev \in {"instr", "update"} THEN C10_Step(B, T) ELSE {})
-  \cup (IF Has("C18") /\ e.ev = "update" /\ e.v \in DOMAIN B.veh /\ e.v \in DOMAIN T.veh
-        THEN C18_Step(B, T, e.v, LAMBDA a, b : Hh.vrank[a] < Hh.vrank[b]) ELSE {})
-  \cup (IF e.ev = "end" THEN MonState(Hh, T) \cup (IF Has("C03") THEN C03_Conservation(HNext(Hh, B, T, e), T) ELSE {}) ELSE {})
+  \cup (IF Has("C10") /\ e.ev = "gen" THEN C10_Builtin(B, e.name, e.instrs) ELSE {})
+  \cup (IF Has("C18") /\ upd THEN C18_Step(B, T, e.v, LAMBDA a, b : Hh.vrank[a] < Hh.vrank[b]) ELSE {})
+  \cup (IF Has("C04") THEN (IF upd /\ "num" \in DOMAIN e THEN C04_Update(B, T, e.v, e.num, e.out)
+                            ELSE IF e.ev = "update" THEN {} ELSE C04_Frame(B, T)) ELSE {})
+  \cup (IF Has("C05") THEN (IF upd THEN C05_Update(B, T, e.v, SumOver(Hh.value, PickedNow(B, T, e), LAMBDA r : Hh.value[r]))
+                            ELSE IF e.ev = "update" THEN {} ELSE C05_Frame(B, T)) ELSE {})
+  \cup (IF Has("C06") THEN (IF upd THEN C06_Move(B, T, e.v, Hh.dt) \cup C06_Frame(B, T, TRUE, e.v) \cup C06_Arrived(T, Hn.arrived, e.v)
+                            ELSE C06_Frame(B, T, FALSE, "")) ELSE {})
+  \cup (IF Has("C15") THEN C15_Step(B, T, e.ev, Hh.dt) ELSE {})
+  \cup (IF Has("C20") /\ e.ev = "drivers" THEN C20_Drivers(B, T, Hh.sched, Reports(e, "driver_schedule_event")) ELSE {})
+  \cup (IF Has("C20") /\ e.ev = "gen" /\ e.name = "Dispatcher" THEN C20_Dispatch(B, e.instrs) ELSE {})
+  \cup (IF e.ev = "end"
+        THEN MonState(Hh, T)
+             \cup (IF Has("C03") THEN C03_Conservation(Hn, T) ELSE {})
+             \cup (IF Has("C04") THEN C04_State(T, Hh.cap, Hh.en0) ELSE {})
+             \cup (IF Has("C05") THEN C05_Totals(T, Hh.disp0, Hn.fares, Hn.nev) ELSE {})
+        ELSE {})
 
 -----------------------------------------------------------------------------
 TraceInit ==
